@@ -765,3 +765,11 @@ def fn_call(I, a, n):
     if args == ():
         args = []
     return I.call_value(a[0], list(args))
+
+
+@model(r"^std::result::Result::iter$|^std::option::Option::iter$|^std::result::Result::iter_mut$|^std::option::Option::iter_mut$")
+def result_iter(I, a, n):
+    r = deref(a[0])
+    is_res = r.ty.split("::")[-1] == "Result"
+    has = (r.variant == 0) if is_res else (r.variant == 1)
+    return ListIt([Ref(r.fields, 0)] if has else [], False)
